@@ -59,8 +59,14 @@ For user processes added with `add_process` the footprint (`kindMasks`) is the s
 process form sets; for memory write ports of different domains hitting one row at a coincident edge
 disjointness does not hold (last writer wins in the real engine) — memories are not part of this model.
 
+* `process_equiv_comb`, `process_equiv_sync_partial` — a compiled assignment `out := e` (combinational, or
+  a register of a domain without asynchronous reset) replaced, at the same position of the process list, by
+  the documented process form over the signals `e` reads: the two simulations agree on `curr`, `next`,
+  `now` and every observation after every `advance()`, `run()`, `run_until()`, for every schedule.
+
 Not proved: that the model's trace equals the Spec's trace (`Spec/Engine.lean`) for all scripts; the
-two are compared on every run of the check.
+two are compared on every run of the check. The register replacement for domains with an asynchronous
+reset (two compiled owners against one process) is stated in a comment next to `process_equiv_sync_partial`.
 -/
 
 namespace Amaranth.C08
@@ -653,5 +659,176 @@ example :
       (runProcs (simDefs Ex.counterD Ex.counterKinds Ex.counterScripts) (identitySched 3 3 Ex.counterS1.deltas).procs
         (trigPhase (simDefs Ex.counterD Ex.counterKinds Ex.counterScripts) Ex.counterS1)).next.val i = Ex.counterS1.curr.val i) ∧
     [Expr.sig 1, Expr.sig 2].map (evalTb Ex.counterD.ctx Ex.counterS1.curr) = [5, 6] := by decide +kernel
+
+/-! ## A circuit replaced by an equivalent process -/
+
+/-- **`m.d.comb += out.eq(e)` replaced by the documented process form**
+`async for values in ctx.changed(*ins): ctx.set(out, e(values))`, `ins` = the signals `e` reads.
+
+`combKindsA pre post out e = pre ++ comb (out := e) :: post` and
+`combKindsB pre post out e = pre ++ userComb (exprSigs e) out e :: post`: the process takes the place of the
+compiled assignment in the process list (the engine's collection is unordered; the position only fixes the
+index schedules refer to). Hypotheses: `out` is a signal of the design that no other process writes and the
+other processes keep every signal inside its shape (`ReplHyp`; decidable form `replOk`); `e` is well formed;
+the initial values lie in the shapes; testbenches write only through well-formed targets that do not mention
+`out` (`writeOk`); the schedule lists every process once per delta. `e` may read `out` itself.
+
+Then, from the initial states (at time 0 both owners are runnable; the process gets its `initial` wake-up),
+the two simulations agree after every number of `advance()` calls, after `run()` and after `run_until()` on
+`curr`, `next`, `now` and on every testbench observation — for every schedule and fuel. In this model the
+user process is resumed in the same delta as the compiled process runs (phase 1a makes it runnable, phase 1b
+runs it), so the relation needs no lag; the compiled process is additionally woken by changes of `out`
+itself, in which case it rewrites the value that is already pending (`CombQ`, third case). -/
+theorem process_equiv_comb (D : Design) (pre post : List ProcKind) (scripts : List (List TbOp)) (out : Nat) (e : Expr)
+    (sched : Sched) (fuel : Nat) (H : ReplHyp D pre post out) (hwf : e.wf D.ctx = true) (hinit : EnvN D.ctx D.inits)
+    (hsc : ∀ sc ∈ scripts, ScriptWrites (writeOk D.ctx out) sc)
+    (hnd : SchedNodup sched) (hl : ∀ k, pre.length ∈ (sched k).procs) (n : Nat) :
+    SameObs (advanceN (mkSim D (combKindsA pre post out e) scripts sched fuel) n (initState D (combKindsA pre post out e) scripts))
+      (advanceN (mkSim D (combKindsB pre post out e) scripts sched fuel) n (initState D (combKindsB pre post out e) scripts)) ∧
+    SameObs (run (mkSim D (combKindsA pre post out e) scripts sched fuel) n (initState D (combKindsA pre post out e) scripts))
+      (run (mkSim D (combKindsB pre post out e) scripts sched fuel) n (initState D (combKindsB pre post out e) scripts)) ∧
+    ∀ deadline,
+      SameObs (runUntil (mkSim D (combKindsA pre post out e) scripts sched fuel) deadline n (initState D (combKindsA pre post out e) scripts))
+        (runUntil (mkSim D (combKindsB pre post out e) scripts sched fuel) deadline n (initState D (combKindsB pre post out e) scripts)) :=
+  comb_equiv_runs D pre post scripts out e sched fuel H hwf hinit hsc hnd hl n
+
+/-- the same per `step_design()`, from any pair of corresponding states (`CombRel`: everything equal except
+the replaced owner's local state, which is in one of the three situations of `CombQ`), and per delta -/
+theorem process_equiv_comb_settle (D : Design) (pre post : List ProcKind) (scripts : List (List TbOp)) (out : Nat) (e : Expr)
+    (H : ReplHyp D pre post out) (hwf : e.wf D.ctx = true) (sched : Sched)
+    (hnd : SchedNodup sched) (hl : ∀ k, pre.length ∈ (sched k).procs) (fuel : Nat) (a b : EState)
+    (hr : CombRel D pre out e a b) :
+    CombRel D pre out e (settle (simDefs D (combKindsA pre post out e) scripts) sched fuel a).1
+      (settle (simDefs D (combKindsB pre post out e) scripts) sched fuel b).1 ∧
+    SameObs (settle (simDefs D (combKindsA pre post out e) scripts) sched fuel a).1
+      (settle (simDefs D (combKindsB pre post out e) scripts) sched fuel b).1 ∧
+    ∀ (o : Orders), o.procs.Nodup → pre.length ∈ o.procs →
+      CombRel D pre out e (delta (simDefs D (combKindsA pre post out e) scripts) o a).1
+        (delta (simDefs D (combKindsB pre post out e) scripts) o b).1 ∧
+      (delta (simDefs D (combKindsB pre post out e) scripts) o b).2 =
+        (delta (simDefs D (combKindsA pre post out e) scripts) o a).2 :=
+  ⟨comb_settle H hwf sched hnd hl fuel a b hr, (comb_settle H hwf sched hnd hl fuel a b hr).1.sameObs,
+   fun o h1 h2 => comb_delta H hwf o h1 h2 a b hr⟩
+
+/-- the hypotheses in decidable form -/
+theorem process_equiv_comb_checked (D : Design) (pre post : List ProcKind) (scripts : List (List TbOp)) (out : Nat) (e : Expr)
+    (sched : Sched) (fuel : Nat) (h1 : envNb D.ctx D.inits = true) (h2 : replOk D pre post out = true)
+    (h3 : e.wf D.ctx = true) (h4 : scriptsWriteOk D.ctx out scripts = true)
+    (hnd : SchedNodup sched) (hl : ∀ k, pre.length ∈ (sched k).procs) (n : Nat) :
+    SameObs (run (mkSim D (combKindsA pre post out e) scripts sched fuel) n (initState D (combKindsA pre post out e) scripts))
+      (run (mkSim D (combKindsB pre post out e) scripts sched fuel) n (initState D (combKindsB pre post out e) scripts)) :=
+  (comb_equiv_runs D pre post scripts out e sched fuel (replOk_sound (envNb_sound h1) h2) h3 (envNb_sound h1)
+    (scriptsWriteOk_sound h4) hnd hl n).2.1
+
+/-- non-vacuity: `out := in ^ 3` behind a clock process (the replaced owner has index 1), a testbench that
+writes `in`, waits and copies `out` back to `in`. All hypotheses are decided; the theorem applies under the
+identity and under the reversed schedule; both simulations evaluated. -/
+example :
+    SameObs (run (mkSim Ex.replCombD (combKindsA Ex.replCombPre [] 1 Ex.replCombE) Ex.replCombScripts (identitySched 2 3) 20) 20
+        (initState Ex.replCombD (combKindsA Ex.replCombPre [] 1 Ex.replCombE) Ex.replCombScripts))
+      (run (mkSim Ex.replCombD (combKindsB Ex.replCombPre [] 1 Ex.replCombE) Ex.replCombScripts (identitySched 2 3) 20) 20
+        (initState Ex.replCombD (combKindsB Ex.replCombPre [] 1 Ex.replCombE) Ex.replCombScripts)) :=
+  process_equiv_comb_checked Ex.replCombD Ex.replCombPre [] Ex.replCombScripts 1 Ex.replCombE (identitySched 2 3) 20
+    (by decide) (by decide) (by decide) (by decide)
+    (identitySched_nodup 2 3) (fun _ => (by decide : Ex.replCombPre.length ∈ List.range 2)) 20
+
+example :
+    (run (mkSim Ex.replCombD (combKindsA Ex.replCombPre [] 1 Ex.replCombE) Ex.replCombScripts (identitySched 2 3) 20) 20
+        (initState Ex.replCombD (combKindsA Ex.replCombPre [] 1 Ex.replCombE) Ex.replCombScripts)).obs.reverse
+      = [(0, 0, [3]), (0, 0, [4]), (0, 3, [1, 1]), (0, 3, [7])] ∧
+    (run (mkSim Ex.replCombD (combKindsB Ex.replCombPre [] 1 Ex.replCombE) Ex.replCombScripts (identitySched 2 3) 20) 20
+        (initState Ex.replCombD (combKindsB Ex.replCombPre [] 1 Ex.replCombE) Ex.replCombScripts)).obs.reverse
+      = [(0, 0, [3]), (0, 0, [4]), (0, 3, [1, 1]), (0, 3, [7])] ∧
+    (run (mkSim Ex.replCombD (combKindsB Ex.replCombPre [] 1 Ex.replCombE) Ex.replCombScripts (reverseSched 2 3) 20) 20
+        (initState Ex.replCombD (combKindsB Ex.replCombPre [] 1 Ex.replCombE) Ex.replCombScripts)).curr = [4, 7, 1] := by
+  decide +kernel
+
+/-
+Full statement for registers (not proved in this generality):
+
+  process_equiv_sync: for every domain `d` — with or without reset, synchronous or asynchronous —
+  `sync d (out := e)` (together with its reset-only companion `arst d (out := e)` when the domain has an
+  asynchronous reset) replaced by `userSync d (exprSigs e) out e` yields `SameObs` after every `advance()`,
+  `run()`, `run_until()`, from the initial states, for every schedule.
+
+Proved below (`process_equiv_sync_partial`): the domains for which the compiler creates no reset-only
+companion, i.e. `¬ (async ∧ rst.isSome)` — no reset, or a synchronous reset. Missing for an asynchronous
+reset: there the compiled side has two owners (`arst`, `sync`) for the one user process, so the two owner
+lists no longer have the same length and `Mid` / `SameOff` (position-wise equality off one index) do not
+apply; the relation would have to shift the indices of all later owners and of the schedules. The per-delta
+case analysis is the same as below with one more cause of activation (rising reset: `arst` writes `init`,
+the user process sees `rst_edge` and writes `init`; coincident with a clock edge both compiled owners write
+`init` — `Compat` — and so does the user process).
+-/
+
+/-- **`m.d.<domain> += out.eq(e)` replaced by the documented process form**
+`async for clk_edge, rst, *values in ctx.tick(d).sample(*ins): if rst: ctx.set(out, init) elif clk_edge: ctx.set(out, e(values))`,
+for a domain without asynchronous reset (`SyncHyp`, decidable form `syncOk`: 1-bit unsigned clock and reset that
+are signals of the design, `out` resettable when the domain has a reset).
+
+The compiled process is woken by the commit that makes the clock equal to the active level, the user
+process' trigger by an edge of bit 0 of the clock with the domain's polarity: for a 1-bit clock whose values
+lie in its shape these are the same commits. In the next delta phase 1a samples `ins` and the reset from
+`curr` (as `tick_sampling_*` describe) and phase 1b runs both owners on that same `curr`; both write `init`
+under reset and `e` on the current values otherwise. Hypotheses otherwise as in `process_equiv_comb`, except
+that testbenches may write any well-formed target (also `out`). -/
+theorem process_equiv_sync_partial (D : Design) (pre post : List ProcKind) (scripts : List (List TbOp)) (d out : Nat) (e : Expr)
+    (sched : Sched) (fuel : Nat) (H : ReplHyp D pre post out) (HS : SyncHyp D d out) (hwf : e.wf D.ctx = true)
+    (hsc : ∀ sc ∈ scripts, ScriptWrites (fun tgt => tgt.twf D.ctx = true) sc)
+    (hnd : SchedNodup sched) (hl : ∀ k, pre.length ∈ (sched k).procs) (n : Nat) :
+    SameObs (advanceN (mkSim D (syncKindsA pre post d out e) scripts sched fuel) n (initState D (syncKindsA pre post d out e) scripts))
+      (advanceN (mkSim D (syncKindsB pre post d out e) scripts sched fuel) n (initState D (syncKindsB pre post d out e) scripts)) ∧
+    SameObs (run (mkSim D (syncKindsA pre post d out e) scripts sched fuel) n (initState D (syncKindsA pre post d out e) scripts))
+      (run (mkSim D (syncKindsB pre post d out e) scripts sched fuel) n (initState D (syncKindsB pre post d out e) scripts)) ∧
+    ∀ deadline,
+      SameObs (runUntil (mkSim D (syncKindsA pre post d out e) scripts sched fuel) deadline n (initState D (syncKindsA pre post d out e) scripts))
+        (runUntil (mkSim D (syncKindsB pre post d out e) scripts sched fuel) deadline n (initState D (syncKindsB pre post d out e) scripts)) :=
+  sync_equiv_runs D pre post scripts d out e sched fuel H HS hwf hsc hnd hl n
+
+/-- the same per `step_design()` and per delta, from any pair of corresponding states (`SyncRel`) -/
+theorem process_equiv_sync_settle_partial (D : Design) (pre post : List ProcKind) (scripts : List (List TbOp)) (d out : Nat)
+    (e : Expr) (H : ReplHyp D pre post out) (HS : SyncHyp D d out) (hwf : e.wf D.ctx = true) (sched : Sched)
+    (hnd : SchedNodup sched) (hl : ∀ k, pre.length ∈ (sched k).procs) (fuel : Nat) (a b : EState)
+    (hr : SyncRel D pre d out e a b) :
+    SyncRel D pre d out e (settle (simDefs D (syncKindsA pre post d out e) scripts) sched fuel a).1
+      (settle (simDefs D (syncKindsB pre post d out e) scripts) sched fuel b).1 ∧
+    ∀ (o : Orders), o.procs.Nodup → pre.length ∈ o.procs →
+      SyncRel D pre d out e (delta (simDefs D (syncKindsA pre post d out e) scripts) o a).1
+        (delta (simDefs D (syncKindsB pre post d out e) scripts) o b).1 ∧
+      (delta (simDefs D (syncKindsB pre post d out e) scripts) o b).2 =
+        (delta (simDefs D (syncKindsA pre post d out e) scripts) o a).2 :=
+  ⟨sync_settle H HS hwf sched hnd hl fuel a b hr, fun o h1 h2 => sync_delta H HS hwf o h1 h2 a b hr⟩
+
+/-- the hypotheses in decidable form -/
+theorem process_equiv_sync_checked_partial (D : Design) (pre post : List ProcKind) (scripts : List (List TbOp)) (d out : Nat)
+    (e : Expr) (sched : Sched) (fuel : Nat) (h1 : envNb D.ctx D.inits = true) (h2 : replOk D pre post out = true)
+    (h3 : syncOk D d out = true) (h4 : e.wf D.ctx = true) (h5 : scriptsTwf D.ctx scripts = true)
+    (hnd : SchedNodup sched) (hl : ∀ k, pre.length ∈ (sched k).procs) (n : Nat) :
+    SameObs (run (mkSim D (syncKindsA pre post d out e) scripts sched fuel) n (initState D (syncKindsA pre post d out e) scripts))
+      (run (mkSim D (syncKindsB pre post d out e) scripts sched fuel) n (initState D (syncKindsB pre post d out e) scripts)) :=
+  (sync_equiv_runs D pre post scripts d out e sched fuel (replOk_sound (envNb_sound h1) h2)
+    (syncOk_sound (envNb_sound h1) h3) h4 (scriptsTwf_sound h5) hnd hl n).2.1
+
+/-- non-vacuity: the register `count := count + 1` of a domain with a synchronous reset, followed by a compiled
+`out := count ^ 3` and the clock process; the testbench ticks, raises the reset, ticks, lowers it, ticks. All
+hypotheses are decided; both simulations evaluated (tick 1 samples `count = 5`, `out = 6`; under reset the
+register returns to 5). -/
+example :
+    SameObs (run (mkSim Ex.replSyncD (syncKindsA [] Ex.replSyncPost 0 2 Ex.replSyncE) Ex.replSyncScripts (identitySched 3 4) 20) 30
+        (initState Ex.replSyncD (syncKindsA [] Ex.replSyncPost 0 2 Ex.replSyncE) Ex.replSyncScripts))
+      (run (mkSim Ex.replSyncD (syncKindsB [] Ex.replSyncPost 0 2 Ex.replSyncE) Ex.replSyncScripts (identitySched 3 4) 20) 30
+        (initState Ex.replSyncD (syncKindsB [] Ex.replSyncPost 0 2 Ex.replSyncE) Ex.replSyncScripts)) :=
+  process_equiv_sync_checked_partial Ex.replSyncD [] Ex.replSyncPost Ex.replSyncScripts 0 2 Ex.replSyncE (identitySched 3 4) 20
+    (by decide) (by decide) (by decide) (by decide) (by decide)
+    (identitySched_nodup 3 4) (fun _ => (by decide : ([] : List ProcKind).length ∈ List.range 3)) 30
+
+example :
+    (run (mkSim Ex.replSyncD (syncKindsA [] Ex.replSyncPost 0 2 Ex.replSyncE) Ex.replSyncScripts (identitySched 3 4) 20) 30
+        (initState Ex.replSyncD (syncKindsA [] Ex.replSyncPost 0 2 Ex.replSyncE) Ex.replSyncScripts)).obs.reverse
+      = [(0, 2, [1, 0, 5, 6]), (0, 2, [6]), (0, 6, [1, 1, 6]), (0, 6, [5]), (0, 10, [1, 0]), (0, 10, [5])] ∧
+    (run (mkSim Ex.replSyncD (syncKindsB [] Ex.replSyncPost 0 2 Ex.replSyncE) Ex.replSyncScripts (identitySched 3 4) 20) 30
+        (initState Ex.replSyncD (syncKindsB [] Ex.replSyncPost 0 2 Ex.replSyncE) Ex.replSyncScripts)).obs.reverse
+      = [(0, 2, [1, 0, 5, 6]), (0, 2, [6]), (0, 6, [1, 1, 6]), (0, 6, [5]), (0, 10, [1, 0]), (0, 10, [5])] := by
+  decide +kernel
 
 end Amaranth.C08
